@@ -1341,6 +1341,13 @@ func (n RangeNumber) Compare(v val.Value) (int64, error) {
 		})
 		return cmp0, err0
 	} else {
+		// 'min' and 'max' stand for the bounds of the restricted type: below resp. above every value
+		if n.isMin {
+			return -1, nil
+		}
+		if n.isMax {
+			return 1, nil
+		}
 		switch v.Format() {
 		case val.FmtDecimal64:
 			a := n.getFloat64()
@@ -1432,6 +1439,15 @@ var errListItemsRangeVaries = errors.New("values in list vary on both inside and
 
 func (r *Range) CheckValue(v val.Value) error {
 	if len(r.Entries) == 0 {
+		return nil
+	}
+	if l, isList := v.(val.Listable); isList {
+		// each element must be inside one of the alternatives on its own
+		for i := 0; i < l.Len(); i++ {
+			if err := r.CheckValue(l.Item(i)); err != nil {
+				return err
+			}
+		}
 		return nil
 	}
 	for _, e := range r.Entries {
